@@ -98,6 +98,10 @@ def gen(rng, tier, index):
     return {"cfg": cfg, "ops": ops}
 
 
+class _Stop(Exception):
+    """The run cannot go on (the violation is recorded)."""
+
+
 def _vio(cls, detail, **sig):
     sig["class"] = cls
     return {"class": cls, "detail": detail, "signature": sig, "owner": "C17"}
@@ -198,7 +202,15 @@ def run(case):
                 return gateway
 
             gateway = build()
-            world.start(persistence=bool(cfg["persistence"]))
+            try:
+                world.start(persistence=bool(cfg["persistence"]))
+            except (kernel.SimAbort, kernel.Deadlock):
+                raise
+            except Exception as exc:  # pylint: disable=broad-except
+                # a subscribe callback of the application's MQTT client that fails is logged by the gateway, not passed on
+                violations.append(_vio("start-raised", {"exc": repr(exc), "subs": [s_[0] for s_ in broker.subs][:8], "at": "first start"},
+                                       exc=type(exc).__name__))
+                raise _Stop()
             passive = None
 
             def get_passive():
@@ -419,6 +431,8 @@ def run(case):
                 probes["callback_raised_runs"] = 1
                 faults["pub_raise"] = broker.raised["pub"]
                 faults["sub_raise"] = broker.raised["sub"]
+        except _Stop:
+            pass
         except kernel.SimAbort as exc:
             incomplete = str(exc)
         except kernel.Deadlock as exc:
